@@ -168,6 +168,14 @@ class Builder:
             else:
                 raise JaqalError(f"Cannot process object {obj} at circuit level")
 
+        # Statements and macros built ahead of the circuit come through
+        # unchanged, whatever block they are put into: look at the nesting
+        # of the whole program once more.
+        for macro in macros.values():
+            check_subcircuit_nesting(macro.body, self.subcircuit_memo)
+        for stmt in statements:
+            check_subcircuit_nesting(stmt, self.subcircuit_memo)
+
         circuit = Circuit(native_gates=native_gates)
         circuit.registers.update(registers)
         circuit.constants.update(constants)
@@ -451,6 +459,25 @@ def contains_subcircuit(obj, memo=None):
     if isinstance(obj, BranchStatement):
         return any(contains_subcircuit(c, memo) for c in obj.cases)
     return False
+
+
+def check_subcircuit_nesting(obj, memo=None, inside=False):
+    """Raise a JaqalError if a subcircuit block, or a call of a macro that
+    contains one, sits inside a subcircuit or parallel block."""
+    if isinstance(obj, GateStatement):
+        if inside and contains_subcircuit(obj, memo):
+            raise JaqalError("Nesting subcircuit in subcircuit or parallel block")
+    elif isinstance(obj, BlockStatement):
+        if inside and obj.subcircuit:
+            raise JaqalError("Nesting subcircuit in subcircuit or parallel block")
+        inside = inside or obj.subcircuit or obj.parallel
+        for stmt in obj.statements:
+            check_subcircuit_nesting(stmt, memo, inside)
+    elif isinstance(obj, (LoopStatement, CaseStatement)):
+        check_subcircuit_nesting(obj.statements, memo, inside)
+    elif isinstance(obj, BranchStatement):
+        for case in obj.cases:
+            check_subcircuit_nesting(case, memo, inside)
 
 
 def rebuild_macro_in_context(macro, context, gate_context, allow_made_up=True):
